@@ -46,7 +46,11 @@ func (p *PointProj) scalarMulGLV(p1 *PointProj, scalar *big.Int) *PointProj {
 	table[3].phi(p1)
 
 	// split the scalar, modifies +-p1, phi(p1) accordingly
-	k := ecc.SplitScalar(scalar, &curveParams.glvBasis)
+	// the sub-scalars are stored in fr.Element, i.e. modulo the base field of this curve and not
+	// modulo the group order: reduce the scalar first so that they are small enough to be exact
+	var s big.Int
+	s.Mod(scalar, &curveParams.Order)
+	k := ecc.SplitScalar(&s, &curveParams.glvBasis)
 
 	if k[0].Sign() == -1 {
 		k[0].Neg(&k[0])
@@ -143,7 +147,11 @@ func (p *PointExtended) scalarMulGLV(p1 *PointExtended, scalar *big.Int) *PointE
 	table[3].phi(p1)
 
 	// split the scalar, modifies +-p1, phi(p1) accordingly
-	k := ecc.SplitScalar(scalar, &curveParams.glvBasis)
+	// the sub-scalars are stored in fr.Element, i.e. modulo the base field of this curve and not
+	// modulo the group order: reduce the scalar first so that they are small enough to be exact
+	var s big.Int
+	s.Mod(scalar, &curveParams.Order)
+	k := ecc.SplitScalar(&s, &curveParams.glvBasis)
 
 	if k[0].Sign() == -1 {
 		k[0].Neg(&k[0])
